@@ -92,9 +92,9 @@ static void build_alphabet(int small, int reduced) {
             add_op(O_ADD, xs[i], 0, "add(%u)");
             add_op(O_REMOVE, xs[i], 0, "remove(%u)");
         }
-        static const uint32_t R[][2] = {{0, 4095}, {0, 4096}, {0, 4097}, {10, 5000}, {4000, 4200}, {4096, 8193}, {60000, 65535}, {0, 65535}, {5, 5}, {7, 3}};
+        static const uint32_t R[][2] = {{0, 4095}, {0, 4096}, {0, 4097}, {10, 5000}, {4000, 4200}, {4096, 8193}, {60000, 65535}, {0, 65535}, {5, 5}, {7, 3}, {1, 65535}, {2, 65535}};
         static const uint32_t RR[][2] = {{0, 4096}, {0, 4097}, {10, 5000}, {4000, 4200}, {0, 65535}};
-        size_t nr = reduced ? 5 : 10;
+        size_t nr = reduced ? 5 : 12;
         for (size_t i = 0; i < nr; i++) {
             uint32_t lo = reduced ? RR[i][0] : R[i][0], hi = reduced ? RR[i][1] : R[i][1];
             add_op(O_ADDRANGE, lo, hi, "addRange(%u,%u)");
@@ -714,6 +714,9 @@ static void build_library(void) {
     lib_range("[0,65535] minus x7", 0, 65535, 7);
     lib_range("[1000,9000) minus x64", 1000, 9000, 64);
     lib_range("[60000,65535]", 60000, 65535, 0);
+    /* runs whose LENGTH sits at the top of its 16-bit field: 65535 and 65534 members */
+    lib_range("[1,65535]", 1, 65535, 0);
+    lib_range("[2,65535]", 2, 65535, 0);
     /* sets whose container type is a left-over of their past: empty but still dense / run-encoded, a few members left
      * in a dense container, the full universe built by single adds */
     {
